@@ -60,10 +60,16 @@ type status uint8
 
 // Wait will block until the Job is completed or the parent Server is shutdown.
 func (j *Job) Wait() {
-	if j == nil || j.done == nil {
+	if j == nil {
 		return
 	}
-	<-j.done
+	// NOTE: 'done' is read once, it is set to nil when the Job finishes and a
+	//       receive on a nil channel blocks forever.
+	d := j.done
+	if d == nil {
+		return
+	}
+	<-d
 }
 
 // Cancel will stop the current Job in-flight and will remove it from the Task
@@ -99,11 +105,15 @@ func (j *Job) Cancel() {
 // IsDone returns true when the Job has received a response, has error out or
 // was canceled. Use the Status field to determine the state of the Job.
 func (j *Job) IsDone() bool {
-	if j == nil || j.done == nil {
+	if j == nil {
+		return true
+	}
+	d := j.done
+	if d == nil {
 		return true
 	}
 	select {
-	case <-j.done:
+	case <-d:
 		return true
 	default:
 	}
